@@ -336,12 +336,13 @@ impl MultiState {
         let mut draw_state = drawable.state();
         draw_state.alignment = self.alignment;
 
+        // Add lines from `ProgressBar::println` call. Lines that are still pending here were
+        // emitted before the text of this draw, so they go first.
+        draw_state.lines.append(&mut self.orphan_lines);
+
         if let Some(extra_lines) = &extra_lines {
             draw_state.lines.extend_from_slice(extra_lines.as_slice());
         }
-
-        // Add lines from `ProgressBar::println` call.
-        draw_state.lines.append(&mut self.orphan_lines);
 
         for index in &self.ordering {
             let member = &self.members[*index];
